@@ -8,6 +8,7 @@ package main
 import (
 	"context"
 	"database/sql/driver"
+	"errors"
 	"fmt"
 	"io"
 	"strconv"
@@ -45,6 +46,11 @@ type QRCase struct {
 	Rows     []Row       `json:"rows"`
 	Batches  []int       `json:"batches"` // sizes of the channel batches in order; 0 = empty batch; sum = len(Rows)
 	EOF      bool        `json:"eof"`     // the last batch ends with the {Err: io.EOF} sentinel entry, as Scan sends it
+	// predecessors only (history group): FailAfter >= 0 puts an entry with a real error after that many rows
+	// (0 = before the first row); Abandon > 0: the client stops reading after that many chunks and goes away
+	FailAfter int  `json:"fail_after,omitempty"`
+	Abandon   int  `json:"abandon,omitempty"`
+	HasFail   bool `json:"has_fail,omitempty"`
 }
 
 func (c *QRCase) fix() {
@@ -70,6 +76,9 @@ func (c *QRCase) batches() [][]shared.LogEntry {
 	for _, n := range c.Batches {
 		b := make([]shared.LogEntry, 0, n+1)
 		for j := 0; j < n; j++ {
+			if c.HasFail && i == c.FailAfter {
+				b = append(b, shared.LogEntry{Err: errScripted})
+			}
 			r := c.Rows[i]
 			s := c.Series[r.S]
 			lbl := make(map[string]string, len(s.Labels))
@@ -81,6 +90,9 @@ func (c *QRCase) batches() [][]shared.LogEntry {
 		}
 		out = append(out, b)
 	}
+	if c.HasFail && c.FailAfter >= len(c.Rows) {
+		out = append(out, []shared.LogEntry{{Err: errScripted}})
+	}
 	if c.EOF {
 		if len(out) == 0 {
 			out = append(out, nil)
@@ -89,6 +101,8 @@ func (c *QRCase) batches() [][]shared.LogEntry {
 	}
 	return out
 }
+
+var errScripted = errors.New("scripted database error")
 
 // expected groups the rows by series in order of appearance (rows of one series are contiguous by construction).
 func (c *QRCase) expected() []expStream {
@@ -216,6 +230,17 @@ func runQR(c *QRCase) ([]byte, error) {
 	}
 	if err != nil {
 		return nil, err
+	}
+	if c.Abandon > 0 { // the client reads a few chunks and goes away; the encoder goroutine stays blocked on its channel
+		var b []byte
+		for i := 0; i < c.Abandon; i++ {
+			o, ok := <-ch
+			if !ok {
+				break
+			}
+			b = append(b, o.Str...)
+		}
+		return b, nil
 	}
 	return collect(ch), nil
 }
